@@ -100,7 +100,10 @@ def job(spec):
     else:
         data = rng.integers(0, top, size=(n, c), dtype=np.int64)
     band = dict(BAND)
+    band["fch1"] = float(max(8, c + 4))       # keep every channel frequency >= 5 MHz (the delay law divides by f^2)
     band.update(spec.get("band", {}))
+    if band["foff"] < 0 and band["fch1"] + (c - 1) * band["foff"] < 5:
+        band["fch1"] = float(5 - (c - 1) * band["foff"])
     names = fixtures.write_set(d, f"tr_{spec['id']}", data, nbits, spec["split"], **band)
     files = [list(open(f, "rb").read()[-(k * c * nbits // 8):]) if k else [] for f, k in zip(names, spec["split"])]
     in_hdr, _ = fixtures.parse_sigproc(open(names[0], "rb").read())
